@@ -92,7 +92,10 @@ def _feed(h, x, depth=0):
         # model objects (LGANM, ANM, NormalDistribution, DRFNet), callable instances, ...
         h.update(b"O")
         h.update(type(x).__name__.encode())
+        vol = getattr(type(x), "_semsim_volatile", ())
         for k in sorted(vars(x)):
+            if k in vol:
+                continue
             h.update(k.encode())
             h.update(b"=")
             _feed(h, vars(x)[k], depth + 1)
@@ -245,3 +248,57 @@ def jkey(j):
     """Stable key of a JSON value (dict key order independent)."""
     import json
     return hashlib.sha1(json.dumps(j, sort_keys=True, allow_nan=True).encode()).hexdigest()[:16]
+
+
+# ---------------------------------------------------------------------------
+# plain (picklable, history-free) form of an outcome and tolerant comparison
+
+def plain(x, depth=0):
+    """Deep, picklable copy of a result in a neutral form (models -> tagged dicts)."""
+    if depth > 10:
+        return "<deep>"
+    if isinstance(x, np.ndarray):
+        if x.dtype == object:
+            return ("objarray", [plain(e, depth + 1) for e in x.ravel()])
+        return np.array(x, copy=True, order="C")
+    if x is None or isinstance(x, (bool, int, float, complex, str, bytes, np.generic)):
+        return x
+    if isinstance(x, list):
+        return [plain(e, depth + 1) for e in x]
+    if isinstance(x, tuple):
+        return tuple(plain(e, depth + 1) for e in x)
+    if isinstance(x, (set, frozenset)):
+        return ("set", sorted((plain(e, depth + 1) for e in x), key=digest))
+    if isinstance(x, dict):
+        return ("dict", sorted(((plain(k, depth + 1), plain(v, depth + 1)) for k, v in x.items()),
+                               key=lambda kv: digest(kv[0])))
+    if isinstance(x, BaseException):
+        return ("exc", type(x).__name__)
+    if isinstance(x, range):
+        return ("range", x.start, x.stop, x.step)
+    if isinstance(x, (types.FunctionType, types.BuiltinFunctionType, np.ufunc, types.MethodType)):
+        return ("fn", digest(x))
+    if hasattr(x, "__dict__"):
+        return ("obj", type(x).__name__, sorted((k, plain(v, depth + 1)) for k, v in vars(x).items()))
+    return ("?", type(x).__name__)
+
+
+def equalish(a, b, rtol=1e-9, atol=1e-12):
+    """Structural equality with a floating-point tolerance far below anything the simulator
+    generates: no BLAS-level nondeterminism can turn into an alarm (DESIGN 4.2/2)."""
+    if type(a) is not type(b):
+        return False
+    if isinstance(a, np.ndarray):
+        if a.dtype != b.dtype or a.shape != b.shape:
+            return False
+        if a.dtype.kind in "fc":
+            return bool(np.allclose(a, b, rtol=rtol, atol=atol, equal_nan=True))
+        return bool(np.array_equal(a, b))
+    if isinstance(a, (float, np.floating)):
+        return bool(np.isclose(a, b, rtol=rtol, atol=atol, equal_nan=True))
+    if isinstance(a, (list, tuple)):
+        return len(a) == len(b) and all(equalish(x, y, rtol, atol) for x, y in zip(a, b))
+    try:
+        return bool(a == b)
+    except Exception:
+        return False
